@@ -359,6 +359,12 @@ class Interp(MiniEval):
                 tag = object.__getattribute__(v, '_fields').get('__isa__', ()) if isinstance(v, Obj) else ()
                 if k.name in tag:
                     return True
+                # abstract base classes of the standard library, for the concrete values the tables use
+                short = k.name.rsplit('.', 1)[-1]
+                abc = {'Sequence': (list, tuple, str, bytes), 'MutableSequence': (list,), 'Mapping': (dict,), 'MutableMapping': (dict,),
+                       'Iterable': (list, tuple, str, bytes, dict, set, frozenset), 'Hashable': (str, bytes, int, float, tuple, frozenset, type(None))}
+                if short in abc and not isinstance(v, (Obj, Sym)) and isinstance(v, abc[short]):
+                    return True
             else:
                 raise Unsupported('isinstance against an unknown class')
         return False
